@@ -244,10 +244,15 @@ func vWriteGenBank(seq gts.Sequence) (string, error, bool) {
 	return buf.String(), err, p
 }
 
-//verif:harness prop=C01 quick=9 thorough=45 merge=concrete timeout=1500
-//verif:bounds records reached by ONE edit operation (insert | embed | delete | erase | slice incl. wrap-around and empty windows | rotate | reverse | complement | concat) from a record of 5 symbolic residues with a source and one gene (quick: partial range with symbolic coordinates and flags; thorough: also complemented range, abutting join, order, between-site), every operation argument symbolic (residues symbolic except under complement); then write -> read -> write
+//verif:harness prop=C01 quick=11 thorough=47 merge=concrete timeout=1500
+//verif:bounds records reached by ONE edit operation (insert | embed | delete | erase | slice incl. wrap-around and empty windows | rotate | reverse | complement | concat) from a record of 5 symbolic residues with a source and one gene (quick: partial range with symbolic coordinates and flags; thorough: also complemented range, abutting join, order, between-site), every operation argument symbolic (residues symbolic except under complement), and a CONTIG-only record (symbolic contig span, no ORIGIN) through reverse | complement; then write -> read -> write
 func VH_C01_pipeline() {
-	sh := vShard(9 + 36*vTier())
+	sh := vShard(11 + 36*vTier())
+	if sh >= 9+36*vTier() {
+		// a CONTIG-only record (no ORIGIN) through reverse / complement: still a CONTIG-only record the reader accepts
+		vC01ContigPipeline(sh - (9 + 36*vTier()))
+		return
+	}
 	op, shape := sh%9, sh/9
 	const L = 5
 	vPipeConcrete = op == 7
@@ -356,5 +361,48 @@ func VH_C01_stream() {
 		vAssert("rewrite-ok", vAnd(!p, werr == nil))
 		vAssert("framed-independently", t == single[k])
 	}
+	vObserve("len", len(text))
+}
+
+func vC01ContigPipeline(op int) {
+	n := vIntIn("clen", 1, 9)
+	gb := GenBank{
+		Fields: GenBankFields{LocusName: "X", Molecule: gts.DNA, Topology: gts.Linear, Division: "UNK",
+			Date: Date{2000, 1, 1}, Definition: "d", Accession: "A", Version: "A.1",
+			Source: Organism{"s", "o", []string{"t"}},
+			Contig: Contig{"C", gts.Segment{0, n}},
+		},
+		Origin: NewOrigin(nil),
+	}
+	var out gts.Sequence
+	if op == 0 {
+		out = gts.Reverse(gb)
+	} else {
+		out = gts.Complement(gb)
+	}
+	text, err, p := vWriteGenBank(out)
+	vAssert("write-no-panic", !p)
+	if p || err != nil {
+		return
+	}
+	vCover("written")
+	recs, seqs, rerr := vScanAll([]byte(text), 2)
+	vAssert("reader-accepts-own-output", vAnd(rerr == nil, recs == 1))
+	if rerr != nil || recs != 1 {
+		return
+	}
+	back, ok := seqs[0].(GenBank)
+	vAssert("is-genbank", ok)
+	if !ok {
+		return
+	}
+	vAssert("same-residues", len(back.Bytes()) == 0)
+	vAssert("same-contig", vAnd(back.Fields.Contig.Accession == "C", vAnd(back.Fields.Contig.Region.Head() == 0, back.Fields.Contig.Region.Tail() == n)))
+	text2, err2, p2 := vWriteGenBank(back)
+	vAssert("rewrite-no-panic", !p2)
+	if p2 || err2 != nil {
+		return
+	}
+	vAssert("write-read-write-fixed-point", text2 == text)
 	vObserve("len", len(text))
 }
